@@ -263,3 +263,88 @@ func isJump(s ast.Stmt) bool {
 	}
 	return false
 }
+
+// R11d: the catalogue loader's per-entry variables live inside the loop over the entries, so nothing
+// carries over from one entry to the next. R11e: translated text is written like source raw text (never
+// through the HTML escaper, which the JavaScript backend does not apply either).
+func ruleR11d(c *Ctx) {
+	nb := c.mustFunc("soymsg/pomsg", "newBundle")
+	p := c.pkg("soymsg/pomsg")
+	if nb == nil || p == nil {
+		return
+	}
+	info := p.TypesInfo
+	// the loop over the file's messages
+	var loop *ast.RangeStmt
+	ast.Inspect(nb.Body, func(x ast.Node) bool {
+		if rs, ok := x.(*ast.RangeStmt); ok && loop == nil && strings.HasSuffix(exprKey(rs.X), ".Messages") {
+			loop = rs
+		}
+		return true
+	})
+	if loop == nil {
+		c.fatalf("anchor: loop over the catalogue's messages not found in newBundle")
+		return
+	}
+	// variables assigned inside the loop only under a condition (switch/if), read later in the iteration
+	n := 0
+	ast.Inspect(loop.Body, func(x ast.Node) bool {
+		cc, ok := x.(*ast.CaseClause)
+		if !ok {
+			return true
+		}
+		for _, s := range cc.Body {
+			as, ok := s.(*ast.AssignStmt)
+			if !ok {
+				continue
+			}
+			for _, l := range as.Lhs {
+				id, ok := l.(*ast.Ident)
+				if !ok || id.Name == "_" || id.Name == "err" {
+					continue
+				}
+				obj := info.Uses[id]
+				if obj == nil {
+					continue
+				}
+				n++
+				inside := declaredWithin(obj, loop.Body)
+				c.check(inside, "R11d", "pomsg.newBundle per-entry "+id.Name, as.Pos(), "declared inside the loop: fresh for every catalogue entry",
+					id.Name+" is declared outside the loop over the catalogue entries and only assigned when an entry has the reference: its value leaks from one entry into the following ones (a plain message is then loaded as a plural of the previous entry's variable)")
+			}
+		}
+		return true
+	})
+	c.floor("R11d", "conditionally assigned per-entry variables", 2, n)
+	// R11e
+	escFd, _ := findEscaper(c)
+	mp := c.mustFunc("soyhtml", "state.evalMsgParts")
+	if escFd == nil || mp == nil {
+		return
+	}
+	hinfo := c.Pkgs["soyhtml"].TypesInfo
+	esc := hinfo.Defs[escFd.Name]
+	ast.Inspect(mp.Body, func(x ast.Node) bool {
+		cc, ok := x.(*ast.CaseClause)
+		if !ok || len(cc.List) != 1 {
+			return true
+		}
+		tv, ok := hinfo.Types[cc.List[0]]
+		if !ok {
+			return true
+		}
+		if _, tn, ok := relPkgOfType(tv.Type); !ok || tn != "RawTextPart" {
+			return true
+		}
+		escaped := false
+		ast.Inspect(cc, func(y ast.Node) bool {
+			if call, ok := y.(*ast.CallExpr); ok && calleeFunc(call, hinfo) == esc {
+				escaped = true
+			}
+			return true
+		})
+		c.check(!escaped, "R11e", "soyhtml.evalMsgParts RawTextPart written raw", cc.Pos(), "translated text is written as it stands, like the template's own raw text",
+			"translated text is passed through the HTML escaper in the Go renderer only: the identity translation no longer renders like the source text, and Go and JavaScript disagree")
+		return true
+	})
+}
